@@ -173,7 +173,6 @@ def check_parse_index(ctx, lib):
         ok = bool(w) and all(t[0] == "agg" and t[1] == "std::option::Option::Some" and
                              all(p[0] == "field" and p[2] == "Number.0" for p in t[2][0]) and bool(t[2][0]) for t in w)
         ix_ = [e for e in writes[0][1]["place"]["p"] if isinstance(e, dict) and "idx" in e]
-        ok = ok and writes[0][1]["place"]["l"] in b.locals_named("parts") or ok
     ctx.check(ok, rule, "slot-write", "a number is stored as Some(n) in the current slot parts[pos]", b.span)
     # omitted parts stay None: the array is initialised with three None
     init = [s for _, _, s in b.stmts() if s["k"] == "assign" and s["rv"]["k"] == "agg" and s["rv"]["ak"] == "array"]
